@@ -67,6 +67,9 @@ type vSource struct {
 	files   map[string]*vSrcFile
 	removed []string
 	order   []string
+	// onSync is called when Sync starts (a point in time at which a harness
+	// lets something else happen)
+	onSync func()
 }
 
 func (s *vSource) Scan(allow func(sts.File) bool) ([]sts.File, time.Time, error) {
@@ -100,6 +103,9 @@ func (s *vSource) Remove(f sts.File) error {
 	return nil
 }
 func (s *vSource) Sync(f sts.File) (sts.File, error) {
+	if s.onSync != nil {
+		s.onSync()
+	}
 	sf := s.files[f.GetName()]
 	if sf == nil || sf.missing {
 		return nil, errGone
